@@ -523,4 +523,99 @@ theorem update_frame {w : World} (h : Inv w) {k : Nat} {o : Obj} (ho : w.objs k 
     · rfl
     · exact applyAll_frame (S := fun i => i ∈ o.params) src o.params w (fun i hi => hi) hc j hj
 
+/-! ## Links in sync stay in sync under updates of independent parameters -/
+
+/-- every registered link of the object has equal values at its two ends -/
+def AllSynced (w : World) (o : Obj) : Prop :=
+  ∀ e ∈ o.reg, ∀ s t, s ∈ o.params → nameOf w.heap s = o.pre ++ (w.lis e.2).src →
+    o.params[(w.lis e.2).alias]? = some t → val w t = val w s
+
+theorem synced_setValue_root {w : World} {k : Nat} {o : Obj} (h : ObjInv w k o) (ho : w.objs k = some o)
+    (hsy : AllSynced w o) {r : ObjId} (hr : r ∈ o.indep) {v : Rat} (ok : (setValue w r v).err = none) :
+    AllSynced (setValue w r v).w o := by
+  obtain ⟨st, _⟩ := setValue_step w r v ok
+  have cs := setValue_cause w r v ok
+  have hrp := h.indepSub r hr
+  have hclosed := h.closed ho
+  intro e he s t hs hsn ht
+  rw [st.lis] at ht hsn
+  have hsn' : nameOf w.heap s = o.pre ++ (w.lis e.2).src := by rw [← st.toSameBut.nameOf]; exact hsn
+  obtain ⟨_, _, r3, ⟨s0, hs0, hs0n, hs0l⟩, _⟩ := h.regOk e he
+  have : s0 = s := h.name_inj hs0 hs (hs0n.trans hsn'.symm)
+  subst this
+  have htg : tgt w e.2 = some t := by simp only [tgt, r3, ho]; exact ht
+  by_cases hc : val (setValue w r v).w s0 = val w s0
+  · have htc : val (setValue w r v).w t = val w t := by
+      by_contra hne
+      rcases cs t hne with rfl | ⟨x, l, hl, hlt, hx⟩
+      · exact (h.indepIff _ hrp).1 hr ⟨e, he, ht⟩
+      · have hxp : x ∈ o.params := by
+          by_contra hxn
+          exact hx (setValue_frame (S := fun i => i ∈ o.params) w r v hrp hclosed x hxn)
+        obtain ⟨hreg, hxn⟩ := h.lsnOk x hxp l hl
+        have hpl := (h.regOk _ hreg).pl
+        simp only at hpl
+        simp only [tgt, hpl, ho] at hlt
+        have hsame := h.once _ hreg e he (h.pos_inj hlt ht)
+        have hl2 : l = e.2 := by rw [← hsame]
+        subst hl2
+        have : x = s0 := h.name_inj hxp hs0 (hxn.trans hs0n.symm)
+        subst this
+        exact hx hc
+    rw [htc, hc]; exact hsy e he s0 t hs hsn' ht
+  · exact st.tracks_direct hs0l htg hc
+
+theorem ObjInv.transport {w w' : World} {k : Nat} {o : Obj} (h : ObjInv w k o) (s : SameBut w w') : ObjInv w' k o :=
+  h.sameShape s.sameShape
+
+/-- the source of a bulk setter names independent parameters only (or names the object does not have) -/
+def NamesIndep (w : World) (o : Obj) (src : List (String × Rat)) : Prop :=
+  ∀ e ∈ src, ∀ t, find? w.heap o.params e.1 = some t → t ∈ o.indep
+
+theorem synced_applySome {k : Nat} {o : Obj} : ∀ (src : List (String × Rat)) (w : World), ObjInv w k o → w.objs k = some o →
+    AllSynced w o → NamesIndep w o src → (applySome o.params w src).err = none → AllSynced (applySome o.params w src).w o
+  | [], _, _, _, hsy, _, _ => hsy
+  | (n, v) :: rest, w, h, ho, hsy, hn, ok => by
+    simp only [applySome] at ok ⊢
+    have hrest : NamesIndep w o rest := fun e he => hn e (List.mem_cons_of_mem _ he)
+    cases hf : find? w.heap o.params n with
+    | none => simp only [hf] at ok ⊢; exact synced_applySome rest w h ho hsy hrest ok
+    | some t =>
+      simp only [hf] at ok ⊢
+      cases hok : (setValue w t v).err with
+      | some e => simp [hok] at ok
+      | none =>
+        simp only [hok] at ok ⊢
+        have sb := setValue_sameBut w t v
+        refine synced_applySome rest _ (h.transport sb) (by rw [sb.objs]; exact ho)
+          (synced_setValue_root h ho hsy (hn (n, v) (List.mem_cons_self ..) t hf) hok) ?_ ok
+        intro e he t' ht'
+        rw [sb.find?] at ht'
+        exact hrest e he t' ht'
+
+theorem synced_matchSome {k : Nat} {o : Obj} : ∀ (src : List (String × Rat)) (w : World), ObjInv w k o → w.objs k = some o →
+    AllSynced w o → NamesIndep w o src → (matchSome o.params w src).1.err = none → AllSynced (matchSome o.params w src).1.w o
+  | [], _, _, _, hsy, _, _ => hsy
+  | (n, v) :: rest, w, h, ho, hsy, hn, ok => by
+    simp only [matchSome] at ok ⊢
+    have hrest : NamesIndep w o rest := fun e he => hn e (List.mem_cons_of_mem _ he)
+    cases hf : find? w.heap o.params n with
+    | none => simp only [hf] at ok ⊢; exact synced_matchSome rest w h ho hsy hrest ok
+    | some t =>
+      simp only [hf] at ok ⊢
+      by_cases hne : (w.heap.get t).value ≠ v
+      · rw [if_pos hne] at ok ⊢
+        cases hok : (setValue w t v).err with
+        | some e => simp [hok] at ok
+        | none =>
+          simp only [hok] at ok ⊢
+          have sb := setValue_sameBut w t v
+          refine synced_matchSome rest _ (h.transport sb) (by rw [sb.objs]; exact ho)
+            (synced_setValue_root h ho hsy (hn (n, v) (List.mem_cons_self ..) t hf) hok) ?_ ok
+          intro e he t' ht'
+          rw [sb.find?] at ht'
+          exact hrest e he t' ht'
+      · rw [if_neg hne] at ok ⊢
+        exact synced_matchSome rest w h ho hsy hrest ok
+
 end Bpp.Alias
